@@ -37,12 +37,20 @@ def snapshot (g : GL) (err : Option Err) (valid : Bool) (univ : List Arg) : Json
        ("get_group", listW (fun a => argW (g.getGroup a)) univ),
        ("contains", listW (fun a => boolW (g.contains a)) univ)]
 
-def runSteps (univ : List Arg) : GL → List GL.Op → List Json
-  | _, [] => []
-  | g, op :: ops =>
+def refinable : GL.Op → Bool
+  | .sortBy o => decide o.Nodup
+  | _ => true
+
+/-- the concrete model and, next to it, the reference model `RefGL` run from the abstraction of the
+    constructed object (`C13_refinement_run`: they correspond after every valid, refinable prefix) -/
+def runSteps (univ : List Arg) : GL → RefGL → List GL.Op → List Json
+  | _, _, [] => []
+  | g, ref, op :: ops =>
     let valid := decide (GL.Valid g op)
     let r := GL.step g op
-    snapshot r.1 r.2 valid univ :: runSteps univ r.1 ops
+    let ref' := RefGL.step ref op
+    (snapshot r.1 r.2 valid univ).mergeObj (obj [("ref", dictW ref'), ("refinable", boolW (refinable op))]) ::
+      runSteps univ r.1 ref' ops
 
 /-- `gl.run`: constructor + history on the model -/
 def run (j : Json) : R Json := do
@@ -52,7 +60,8 @@ def run (j : Json) : R Json := do
   | .error e => pure (obj [("ctor_err", errW (some e)), ("steps", Json.arr #[])])
   | .ok g =>
     pure (obj [("ctor_err", Json.null),
-               ("steps", Json.arr (snapshot g none true univ :: runSteps univ g ops).toArray)])
+               ("steps", Json.arr ((snapshot g none true univ).mergeObj (obj [("ref", dictW (GL.abs g)), ("refinable", boolW true)]) ::
+                 runSteps univ g (GL.abs g) ops).toArray)])
 
 /-- `judge.C13` on one implementation snapshot: the state is well formed and the lookups the
     implementation returned agree with its own `content`. -/
